@@ -3,12 +3,25 @@
 #ifndef TETL_TYPE_TRAITS_MAKE_UNSIGNED_HPP
 #define TETL_TYPE_TRAITS_MAKE_UNSIGNED_HPP
 
+#include <etl/_type_traits/conditional.hpp>
+#include <etl/_type_traits/remove_cv.hpp>
+#include <etl/_type_traits/type_identity.hpp>
+
 namespace etl {
 
 namespace detail {
 
-template <typename>
-struct make_unsigned;
+template <typename T, typename... Candidates>
+struct make_unsigned_same_size;
+
+template <typename T, typename C, typename... Cs>
+struct make_unsigned_same_size<T, C, Cs...>
+    : conditional_t<sizeof(T) == sizeof(C), type_identity<C>, make_unsigned_same_size<T, Cs...>> { };
+
+/// char, wchar_t, char8_t, char16_t, char32_t and enumerations: the unsigned
+/// integer type with the smallest rank that has the same size.
+template <typename T>
+struct make_unsigned : make_unsigned_same_size<T, unsigned char, unsigned short, unsigned int, unsigned long, unsigned long long> { };
 
 template <>
 struct make_unsigned<signed char> {
@@ -69,7 +82,24 @@ struct make_unsigned<unsigned long long> {
 /// provided. The behavior of a program that adds specializations for
 /// make_unsigned is undefined.
 template <typename Type>
-struct make_unsigned : etl::detail::make_unsigned<Type> { };
+struct make_unsigned {
+    using type = typename etl::detail::make_unsigned<etl::remove_cv_t<Type>>::type;
+};
+
+template <typename Type>
+struct make_unsigned<Type const> {
+    using type = typename make_unsigned<Type>::type const;
+};
+
+template <typename Type>
+struct make_unsigned<Type volatile> {
+    using type = typename make_unsigned<Type>::type volatile;
+};
+
+template <typename Type>
+struct make_unsigned<Type const volatile> {
+    using type = typename make_unsigned<Type>::type const volatile;
+};
 
 template <typename T>
 using make_unsigned_t = typename make_unsigned<T>::type;
